@@ -1116,7 +1116,7 @@ fn run_wad(case: &CaseWad, ctx: &mut Ctx) -> R {
 // ------------------------------------------------------------------ property
 
 pub fn property() -> Property {
-    Property {
+    let mut p = Property {
         id: "C12",
         rule: "lattice: every (x,y,d) of the boundary lattice^3 x {floor,ceil,trunc}, checked and panicking variant each compared with the exact BigInt quotient \
                (evaluation = one triple under one rounding, both variants); i128/i256/wad: case = vector of generated inputs (random bit lengths and signs, lattice values, \
@@ -1129,6 +1129,7 @@ pub fn property() -> Property {
             gen_sub::<Case128>("i128", 18_000, 300_000, strat128, run128),
             gen_sub::<Case256>("i256", 8_000, 120_000, strat256, run256),
             gen_sub::<CaseWad>("wad", 12_000, 200_000, strat_wad, run_wad),
+            gen_sub::<super::c12b::Case>("wad-api", 8_000, 160_000, super::c12b::strategy, super::c12b::run),
         ],
         // <= 1/10 of the counts measured over seeds 0..5 on the unchanged tree (thorough = 10 x quick; every sub grows by >= 7x)
         floors: vec![
@@ -1173,5 +1174,9 @@ pub fn property() -> Property {
             "I256 variants are judged only for products that fit in 256 bits (statement's restriction) plus the I256::MIN / -1 corner (no value may be returned)",
             "Wad::pow value for exponents >= 2 is not asserted (depends on the algorithm's truncation points); only pow/checked_pow agreement, x^0 = 1, x^1 = x",
         ],
-    }
+    };
+    // second half (rest of the public Wad API): props/c12b.rs
+    p.floors.extend(super::c12b::FLOORS.iter().cloned());
+    p.assumptions.extend(super::c12b::ASSUMPTIONS.iter().cloned());
+    p
 }
